@@ -34,3 +34,8 @@ Check C02_stream_no_panic : forall first num width data allow,
 Check C02_stream_bounded : forall first num w0 w1 w2 data allow s rest,
   parse_xref_section_from_stream first num [w0; w1; w2] data allow = Ok (s, rest) ->
   0 < w0 + w1 + w2 /\ lenN data = lenN rest + lenN (entries s) * (w0 + w1 + w2) /\ lenN (entries s) <= lenN data.
+Check C02_table_roundtrip : forall (L : layout) (secs : list section) (rest : bytes) (p : N),
+  layout_ok L secs -> token_end rest ->
+  read_xref_table_at (mkLx p (print_table_spec L secs ++ rest))
+  = Ok (secs, mkLx (p + lenN (print_table_spec L secs)) rest).
+Check C02_table_row_20 : forall e el, row_fits e -> lenN (print_row e el) = 20.
